@@ -322,6 +322,7 @@ static void run_op(DocWorld &w, const Op &op)
 	    size_t ncb = g_sim.callbacks.size();
 	    std::string cbmsg = ncb ? g_sim.callbacks[0].msg : "";
 	    lc.done();
+	    if (fp) c11_discipline(c, "export", "vnaproperty_export_yaml_to_file", rc != 0, lc.saved_errno, cb, C11_MUST);
 	    if (c.violated) return;
 	    if (fired && (rc != 0 || crc != 0)) {
 		// failed because of the injected fault: reported, and repeatable once the fault is gone
@@ -381,6 +382,7 @@ static void run_op(DocWorld &w, const Op &op)
 	    std::string cbmsg = ncb ? g_sim.callbacks[0].msg : "";
 	    if (ncb) cat0 = g_sim.callbacks[0].category;
 	    lc.done();
+	    if (op.k == "import_s" || !g_sim.fired_open) c11_discipline(c, "import", "vnaproperty_import_yaml", rc != 0, lc.saved_errno, cb, C11_MUST);
 	    if (c.violated) return;
 	    // an import that failed because of an allocation fault is repeated once the fault is gone
 	    // (into an emptied root, and only when the root was empty to begin with)
